@@ -11,6 +11,7 @@ mod texec;
 mod util;
 mod wexec;
 mod xexec;
+mod zexec;
 
 fn main() {
     let args: Vec<String> = std::env::args().collect();
@@ -28,6 +29,7 @@ fn main() {
         "fexec" => fexec::main_fexec(rest),
         "texec" => texec::main_texec(rest),
         "xexec" => xexec::main_xexec(rest),
+        "zexec" => zexec::main_zexec(rest),
         "lex" => {
             let b = std::fs::read(&rest[0]).expect("read");
             let o = lexer::LexOpts { allow_trailing: true, ..Default::default() };
